@@ -139,4 +139,12 @@ CLAIMS["C10"] = {
     "design_ref": "DESIGN.md §3 C10",
 }
 
+CLAIMS["C19"] = {
+    "technique": "rapid-generated concurrent client programs executed under the Go race detector (binary built with -race, GORACE=halt_on_error=1)",
+    "engine": "race",
+    "text": "Generated client programs: a family of shared objects (Buffer; Deadline; dpipe pair; vnet router/hosts/sockets with ListenUDP, Dial, AddChunkFilter, Stop/Start; TokenBucketFilter and LossFilter under traffic with run-time Set(TBFRate|TBFMaxBurst); udp listener and connections on a real socket; parallel construction of independent networks), 2..6 goroutines with 1..8 drawn operations each, every program run twice for real. Oracle: the race detector; a report names two conflicting accesses unordered by happens-before in that run, independent of adverse timing. The program is printed before it runs; the replay command re-runs the last printed program 50 times. Exploration of the program space, no shrinking.",
+    "note": "Sees only races between accesses a generated program performs; API combinations outside the catalogue and instruction-level races the detector does not instrument (assembly) are not covered.",
+    "design_ref": "DESIGN.md §3 C19",
+}
+
 PENDING_REASON = "check not built yet in this revision of /verif (planned, see DESIGN.md §3); nothing is claimed for it"
